@@ -1,6 +1,6 @@
 """Shared driver code for the /verif checks (TLC runs, harness build/replay, trace
 validation, evidence files, known findings)."""
-import json, os, re, shutil, subprocess, sys, time, hashlib
+import json, os, re, shutil, subprocess, sys, time, hashlib, threading, collections
 
 VERIF = os.path.dirname(os.path.dirname(os.path.abspath(__file__)))
 REPO = os.environ.get("VERIF_REPO", "/repo")
@@ -53,8 +53,10 @@ def build_harness(workdir, race=False):
 TLC_STATS = re.compile(r"^(\d+) states generated, (\d+) distinct states found, (\d+) states left on queue")
 
 
-def run_tlc(workdir, module, cfg, env=None, workers=None, timeout=1800, extra=()):
-    """Run TLC; returns dict(out=[printed JSON values], generated, distinct, ok, raw)."""
+def run_tlc(workdir, module, cfg, env=None, workers=None, timeout=1800, extra=(), sink=None):
+    """Run TLC; returns dict(out=[printed JSON values], generated, distinct, ok, raw).
+    With sink (a callable), printed values are handed to it one by one instead of being collected
+    (large scenario corpora are streamed to a file, not held in memory)."""
     md = os.path.join(workdir, "md-%s-%d" % (cfg.replace(".cfg", ""), int(time.time() * 1000) % 100000))
     tmp = os.path.join(workdir, "tmp")
     os.makedirs(tmp, exist_ok=True)
@@ -65,26 +67,47 @@ def run_tlc(workdir, module, cfg, env=None, workers=None, timeout=1800, extra=()
         e.update(env)
     cmd = ["tlc", "-workers", str(workers or NCPU), "-metadir", md, "-config", cfg] + list(extra) + [module]
     t0 = time.time()
+    res = dict(out=[], generated=0, distinct=0, ok=False, raw="", wall=0.0, errors=[], nout=0)
+    tail = collections.deque(maxlen=400)
+    p = subprocess.Popen(cmd, cwd=workdir, env=e, stdout=subprocess.PIPE, stderr=subprocess.STDOUT, text=True)
+    killed = []
+
+    def _kill():
+        killed.append(1)
+        p.kill()
+    timer = threading.Timer(timeout, _kill)
+    timer.start()
     try:
-        p = subprocess.run(cmd, cwd=workdir, env=e, capture_output=True, text=True, timeout=timeout)
-    except subprocess.TimeoutExpired:
-        subprocess.run(["pkill", "-f", "tlc2.TL[C]"])
+        for line in p.stdout:
+            line = line.rstrip("\n")
+            if line.startswith('"{') or line.startswith('"['):
+                try:
+                    v = json.loads(json.loads(line))
+                except Exception:
+                    res["errors"].append("unparsable print: " + line[:200])
+                    continue
+                res["nout"] += 1
+                if sink is not None:
+                    sink(v)
+                else:
+                    res["out"].append(v)
+                continue
+            tail.append(line)
+            mm = TLC_STATS.match(line)
+            if mm:
+                res["generated"], res["distinct"] = int(mm.group(1)), int(mm.group(2))
+            if line.startswith("Model checking completed. No error has been found"):
+                res["ok"] = True
+            if line.startswith("Error:") or "is violated" in line or "Exception" in line:
+                res["errors"].append(line)
+        p.wait()
+    finally:
+        timer.cancel()
+    if killed:
+        shutil.rmtree(md, ignore_errors=True)
         raise Inconclusive("TLC timed out on %s/%s" % (module, cfg))
-    res = dict(out=[], generated=0, distinct=0, ok=False, raw=p.stdout, wall=time.time() - t0, errors=[])
-    for line in p.stdout.splitlines():
-        if line.startswith('"{') or line.startswith('"['):
-            try:
-                res["out"].append(json.loads(json.loads(line)))
-            except Exception:
-                res["errors"].append("unparsable print: " + line[:200])
-            continue
-        mm = TLC_STATS.match(line)
-        if mm:
-            res["generated"], res["distinct"] = int(mm.group(1)), int(mm.group(2))
-        if line.startswith("Model checking completed. No error has been found"):
-            res["ok"] = True
-        if line.startswith("Error:") or "is violated" in line or "Exception" in line:
-            res["errors"].append(line)
+    res["raw"] = "\n".join(tail)
+    res["wall"] = time.time() - t0
     shutil.rmtree(md, ignore_errors=True)
     return res
 
@@ -128,8 +151,9 @@ def write_evidence(pid, tier, seed, coverage, assumptions, wall, violations, ext
               assumptions=assumptions, wall_s=round(wall, 2), violations=int(violations))
     if extra:
         ev.update(extra)
-    os.makedirs(os.path.join(VERIF, "evidence"), exist_ok=True)
-    path = os.path.join(VERIF, "evidence", pid + ".json")
+    evdir = os.environ.get("VERIF_EVIDENCE_DIR", os.path.join(VERIF, "evidence"))   # override: mutant evaluation only
+    os.makedirs(evdir, exist_ok=True)
+    path = os.path.join(evdir, pid + ".json")
     with open(path, "w") as f:
         json.dump(ev, f, indent=1, sort_keys=True)
     return path
